@@ -62,6 +62,13 @@ package data
 //@   ensures[int-int] typeis(other, Int) ==> result == (v == unbox(other, Int))
 //@   ensures[int-float] typeis(other, Float) ==> result == (float64(v) == unbox(other, Float))
 //@   ensures[strict] !typeis(other, Int) && !typeis(other, Float) ==> !result
+// C01: a float prints as digits only when it is finite or NaN (an infinity is
+// the word every Soy backend prints).
+//@ func Float.String
+//@   props C01 C20
+//@   nosafety
+//@   pure
+//@   at call strconv.FormatFloat#0 assert[only-finite-numbers-and-NaN-print-as-digits;C01] !isInf(arg0)
 //@ func Float.Equals
 //@   pure
 //@   props C20 C01
